@@ -3,10 +3,12 @@ import Refinery.Model.Usage
 /-
 Oracle for the usage tracker + agent send loop (C34).
 case args: mode=agent|raw
-ops:  add <sig> <reading> | report | sent | fail | tick <ok|pend-ok|fail|pend-fail> <mids>
+ops:  add <sig> <reading> | report | sent | fail | tick <script> <mids>
+      script = one letter per SendCustomMessage answer: a accepted, p pending (channel closed later),
+      e error, A accepted / P pending with a channel that is never closed before shutdown
 obs:  add/sent/fail : <state>
       report        : ok r=<points> <state> | nodata <state> | negative <state>
-      tick          : res=<nil|nodata|negative|senderr> sends=<n> made=<points|none> got=<points|none> <state>
+      tick          : res=<nil|nodata|negative|senderr|pending|ctx|dead> sends=<n> made=<points|none> got=<points|none> <state>
 <state>  = cur=<sig:v,…|-> last=<…> lu=<v0,v1,v2,v3>
 <points> = <sig:v1+v2,…> (values ascending)
 -/
@@ -39,22 +41,24 @@ def pointsStr (r : Report) : String :=
 
 /-- the agent's `sendUsageReport` = the model's `astep … (.tick deliver mids)`; the observation is
 the error class, the number of `SendCustomMessage` calls, the report made and the report accepted. -/
-def tick (st : St) (outcome : String) (mids : List (Nat × Nat)) : Option (St × String) :=
-  let info : Option (Bool × Nat) := match outcome with
-    | "ok" => some (true, 1) | "pend-ok" => some (true, 2)
-    | "fail" => some (false, 1) | "pend-fail" => some (false, 2) | _ => none
-  match info with
-  | none => none
-  | some (deliver, sends) =>
-    let st3 := astep variant st (.tick deliver mids)
-    match (step variant st .report).2 with
-    | .report r =>
-      let res := if deliver then "nil" else "senderr"
-      let got := if deliver then pointsStr r else "none"
-      some (st3, s!"res={res} sends={sends} made={pointsStr r} got={got} {stateStr st3}")
-    | .noData => some (st3, s!"res=nodata sends=0 made=none got=none {stateStr st3}")
-    | .negative => some (st3, s!"res=negative sends=0 made=none got=none {stateStr st3}")
-    | .none => some (st3, "bad-op")
+def parseScript (s : String) : Option (List Resp) :=
+  if s.isEmpty then none else
+  s.toList.mapM fun c => match c with
+    | 'a' => some Resp.acc | 'A' => some Resp.accHang | 'p' => some Resp.pend
+    | 'P' => some Resp.pendHang | 'e' => some Resp.err | _ => none
+
+def tick (st : St) (script : List Resp) (mids : List (Nat × Nat)) : St × Bool × String :=
+  let lr := loopRes script
+  let st3 := astep variant st (AOp.ofScript script mids)
+  match (step variant st .report).2 with
+  | .report r =>
+    let res := match lr.fin with
+      | .completed => "nil" | .sendErr => "senderr" | .stillPending => "pending" | .cancelled => "ctx"
+    let got := if lr.accepted then pointsStr r else "none"
+    (st3, lr.dead, s!"res={res} sends={lr.sends} made={pointsStr r} got={got} {stateStr st3}")
+  | .noData => (st3, false, s!"res=nodata sends=0 made=none got=none {stateStr st3}")
+  | .negative => (st3, false, s!"res=negative sends=0 made=none got=none {stateStr st3}")
+  | .none => (st3, false, "bad-op")
 
 def parseMids (s : String) : Option (List (Nat × Nat)) :=
   if s == "-" then some [] else
@@ -65,28 +69,31 @@ def parseMids (s : String) : Option (List (Nat × Nat)) :=
         | _, _ => none
       | _ => none
 
-def usageStep (st : St) (op : List String) (_ : List (List String)) : St × Option String :=
+/-- model state + "the agent was shut down" (a hanging answer was consumed: the real loop's
+behaviour after that is a race between `ctx.Done()` and the channel, the harness does not run it) -/
+def usageStep (sd : St × Bool) (op : List String) (_ : List (List String)) : (St × Bool) × Option String :=
+  let (st, dead) := sd
   match op with
   | ["add", s, v] => match s.toNat?, v.toNat? with
     | some s, some v =>
-      if s < nsig then let st' := (step variant st (.add s v)).1; (st', some (stateStr st'))
-      else (st, some "bad-op")
-    | _, _ => (st, some "bad-op")
+      if s < nsig then let st' := (step variant st (.add s v)).1; ((st', dead), some (stateStr st'))
+      else (sd, some "bad-op")
+    | _, _ => (sd, some "bad-op")
   | ["report"] =>
     match step variant st .report with
-    | (st', .report r) => (st', some s!"ok r={pointsStr r} {stateStr st'}")
-    | (st', .noData) => (st', some s!"nodata {stateStr st'}")
-    | (st', .negative) => (st', some s!"negative {stateStr st'}")
-    | (st', .none) => (st', some "bad-op")
-  | ["sent"] => let st' := (step variant st .sent).1; (st', some (stateStr st'))
-  | ["fail"] => let st' := (step variant st .fail).1; (st', some (stateStr st'))
-  | ["tick", o, mids] =>
-    match parseMids mids with
-    | none => (st, some "bad-op")
-    | some ms => match tick st o ms with
-      | some (st', obs) => (st', some obs)
-      | none => (st, some "bad-op")
-  | _ => (st, some "bad-op")
+    | (st', .report r) => ((st', dead), some s!"ok r={pointsStr r} {stateStr st'}")
+    | (st', .noData) => ((st', dead), some s!"nodata {stateStr st'}")
+    | (st', .negative) => ((st', dead), some s!"negative {stateStr st'}")
+    | (st', .none) => ((st', dead), some "bad-op")
+  | ["sent"] => let st' := (step variant st .sent).1; ((st', dead), some (stateStr st'))
+  | ["fail"] => let st' := (step variant st .fail).1; ((st', dead), some (stateStr st'))
+  | ["tick", sc, mids] =>
+    match parseScript sc, parseMids mids with
+    | some script, some ms =>
+      if dead then (sd, some s!"res=dead sends=0 made=none got=none {stateStr st}")
+      else let (st', d, obs) := tick st script ms; ((st', d), some obs)
+    | _, _ => (sd, some "bad-op")
+  | _ => (sd, some "bad-op")
 
 /-! ## Monitor: C34 on the implementation's own observations -/
 
@@ -134,8 +141,9 @@ def negFails (what : String) (p : List (Nat × List Int)) : List Fail :=
     else none
 
 /-- conservation at a point where no report is in flight: sent + waiting = growth, per signal.
-`failure`: the check follows a report that was made but not accepted. -/
-def check (m : MSt) (cur last : Vec) (failure : Bool) : MSt × List Fail :=
+`failure`: the check follows a report that was made but not accepted; `claimed`: … and the loop
+nevertheless returned nil. -/
+def check (m : MSt) (cur last : Vec) (failure : Bool) (claimed : Bool := false) : MSt × List Fail :=
   if m.off then (m, []) else
   let r := (List.range nsig).foldl (fun (acc : Vec × List Fail) s =>
     let d := m.growth s - m.sent s - cur s - last s
@@ -144,7 +152,10 @@ def check (m : MSt) (cur last : Vec) (failure : Bool) : MSt × List Fail :=
     else
       let f : Fail :=
         if d > old then
-          if failure && m.carried s > 0 && d - old = m.carried s then
+          if claimed then
+            { prop := "C34", sig := "C34:usage-lost:cleared-without-accepted-send",
+              what := s!"signal {s}: the send loop reported success and cleared the unsent data points although the client accepted no message (growth {m.growth s}, sent {m.sent s}, waiting {cur s + last s}: unaccounted usage went from {old} to {d})" }
+          else if failure && m.carried s > 0 && d - old = m.carried s then
             { prop := "C34", sig := "C34:usage-lost:failed-send-drops-carried-pending",
               what := s!"signal {s}: a failed report carried {m.carried s} from an earlier failed report; that usage is in no later report and not pending (growth {m.growth s}, sent {m.sent s}, waiting {cur s + last s})" }
           else
@@ -203,13 +214,17 @@ def usageMon (m : MSt) (op : List String) (_ : List (List String)) (obs : Option
           match parsePoints got with
           | some p => ({ m with sent := vadd m.sent (pointsTotal p) }, [])
           | none => (m, [{ prop := "C34", sig := "C34:bad-delivery", what := got : Fail }])
-        let (m, f3) := check m cur last (made != "none" && got == "none")
+        let res := (kv toks "res").getD ""
+        let noAcc := made != "none" && got == "none"
+        -- shutdown (ctx / dead): whatever is waiting dies with the process; nothing is judged any more
+        let (m, f3) := if res == "ctx" || res == "dead" then ({ m with off := true }, [])
+          else check m cur last noAcc (noAcc && res == "nil")
         fin (m, f0 ++ f1 ++ f2 ++ f3)
       | _ => fin (m, [])
     | _, _ => (m, [])
 
-def comp : Component St MSt where
-  init := fun _ => {}
+def comp : Component (St × Bool) MSt where
+  init := fun _ => ({}, false)
   step := usageStep
   minit := fun _ => {}
   mon := usageMon
